@@ -461,7 +461,10 @@ fn to_base_36(len: usize, number: i32) -> String {
 
 fn parse_base_36(number: &mut i32, ch: char) -> EngineResult<()> {
     if let Some(digit) = ch.to_digit(36) {
-        *number = *number * 36 + digit as i32;
+        *number = number
+            .checked_mul(36)
+            .and_then(|n| n.checked_add(digit as i32))
+            .ok_or_else(|| anyhow::Error::msg("base 36 number too large"))?;
         Ok(())
     } else {
         Err(anyhow::Error::msg("Invalid base 36 digit"))
